@@ -34,6 +34,7 @@ def normalise(prog):
         n.setdefault('exceptions', None)
         n.setdefault('use_default', False)
         n.setdefault('generic', False)
+        n.setdefault('cotag', False)     # coroutine body that (needlessly) carries the non_async tag
         for i, p in enumerate(n['params']):
             if p['kind'] == 'switch':
                 p.setdefault('name', 'sw_%s_%s' % (n['id'], p['kw']))
@@ -60,6 +61,13 @@ def rec_dests(prog):
 
 def rec_starts(prog):
     return {p['start'] for n in prog['nodes'] for p in n['params'] if p['kind'] == 'rec'}
+
+
+GENERIC_CONST = {'c0': 'c'}      # sorts after additional_data and before every parameter name
+
+
+def has_const(n):
+    return bool(n.get('generic') and n['params'] and not n['use_default'])
 
 
 def build_classes(prog, rt):
@@ -121,6 +129,8 @@ def build_classes(prog, rt):
             tags = (NodeTag.non_async,)
         elif n['mode'] == 'process':
             tags = (NodeTag.process,)
+        elif n['mode'] == 'coro' and n.get('cotag'):
+            tags = (NodeTag.non_async,)      # run_node looks at coroutine-ness first: still a coroutine on the loop
         attrs = {
             'name': nid, 'verif_id': nid, 'process': process, 'get_default': get_default,
             'tags': tags, '__module__': 'verif_generated', '__doc__': 'generated node %s' % nid,
@@ -142,7 +152,11 @@ def build_classes(prog, rt):
             gproc = gattrs['process']
             gproc.__annotations__ = {}
             gbase = type('G_' + nid, (base,), gattrs)
-            classes[nid] = build_node(gbase, node_name=nid, class_name='Generic' + nid, **ann)
+            # ... with a constant dependency, unless the node has a default value (get_default is not given the
+            # constants, the body is)
+            consts = dict(GENERIC_CONST) if has_const(n) else None
+            classes[nid] = build_node(gbase, node_name=nid, class_name='Generic' + nid,
+                                      dependencies_default=consts, attrs={'verif_consts': dict(consts or {})}, **ann)
             continue
         classes[nid] = type('N_' + nid, (base,), attrs)
     return classes
@@ -334,6 +348,7 @@ def to_tla(prog):
             'excs': list(excs),
             'use_default': bool(n['use_default']),
             'is_start': n['id'] in starts,
+            'const': [[k, ['s', v]] for k, v in sorted(GENERIC_CONST.items())] if has_const(n) else [],
         })
     runs = []
     ids = [n['id'] for n in prog['nodes']]
